@@ -1,4 +1,4 @@
-CONSTANT Big = FALSE
+CONSTANT Big = TRUE
 INIT Init
 NEXT Next
 INVARIANT Inverses
